@@ -38,6 +38,11 @@ func (c *orCond) check() (err error) {
 }
 
 func (c *orCond) string() string {
+	if len(c.conditions) == 1 {
+		// A group of one condition is that condition, the parser does not keep such groups.
+		return c.conditions[0].string()
+	}
+
 	all := make([]string, 0, len(c.conditions))
 	for _, cond := range c.conditions {
 		all = append(all, cond.string())
